@@ -308,6 +308,18 @@ func httpSettings(r *rand.Rand) []byte {
 func (q *httpReq) hpackBlock() []byte {
 	var b bytes.Buffer
 	e := hpack.NewEncoder(&b)
+	// Two HPACK variants that involve the decoder's dynamic table (chosen by a fixed function of the request): a block
+	// that starts with "dynamic table size update 0", and a block in which a header occurs twice, so that the second
+	// occurrence is a reference to the dynamic-table entry the first one created.
+	mode := (len(q.path) + len(q.host) + 3*len(q.headers)) % 5
+	if mode == 4 {
+		e.SetMaxDynamicTableSize(0)
+	}
+	defer func() { _ = mode }()
+	if mode == 3 {
+		e.WriteField(hpack.HeaderField{Name: "x-verif-dup", Value: "same-value-twice"})
+		e.WriteField(hpack.HeaderField{Name: "x-verif-dup", Value: "same-value-twice"})
+	}
 	e.WriteField(hpack.HeaderField{Name: ":method", Value: q.method})
 	e.WriteField(hpack.HeaderField{Name: ":scheme", Value: q.scheme})
 	e.WriteField(hpack.HeaderField{Name: ":authority", Value: q.host})
